@@ -72,19 +72,24 @@ type fnSpec struct {
 	pkg, name string // name: Func or Type.Method
 	// tailCall: the function ends in `return recv.<tailCall>(args…, dest)`; the translated function returns the integer args
 	tailCall string
+	// startAfter: translate only the statements that follow the top-level `if <startAfter> {…}`; the integer variables they
+	// use from before become parameters (for functions whose first part does I/O)
+	startAfter string
+	leanName   string
 }
 
 var goFnList = []fnSpec{
-	{"Time", "datacodec", "addExact", ""}, {"Time", "datacodec", "multiplyExact", ""}, {"Time", "datacodec", "floorDiv", ""}, {"Time", "datacodec", "floorMod", ""},
-	{"Time", "datacodec", "ConvertTimeToEpochMillis", ""}, {"Time", "datacodec", "ConvertEpochMillisToTime", ""},
-	{"Time", "datacodec", "ConvertTimeToEpochDays", ""}, {"Time", "datacodec", "ConvertEpochDaysToTime", ""},
-	{"Time", "datacodec", "ConvertDurationToNanosOfDay", ""}, {"Time", "datacodec", "ConvertNanosOfDayToDuration", ""},
-	{"Time", "datacodec", "ConvertTimeToNanosOfDay", ""},
-	{"Vint", "primitive", "encodeZigZag", ""}, {"Vint", "primitive", "decodeZigZag", ""},
-	{"Vint", "primitive", "LengthOfUnsignedVint", ""}, {"Vint", "primitive", "LengthOfVint", ""},
-	{"Crc", "crc", "ChecksumKoopman", ""},
-	{"Crc", "segment", "codec.encodeHeaderUncompressed", "writeHeaderDataAndCrc"},
-	{"Crc", "segment", "codec.encodeHeaderCompressed", "writeHeaderDataAndCrc"},
+	{"Time", "datacodec", "addExact", "", "", ""}, {"Time", "datacodec", "multiplyExact", "", "", ""}, {"Time", "datacodec", "floorDiv", "", "", ""}, {"Time", "datacodec", "floorMod", "", "", ""},
+	{"Time", "datacodec", "ConvertTimeToEpochMillis", "", "", ""}, {"Time", "datacodec", "ConvertEpochMillisToTime", "", "", ""},
+	{"Time", "datacodec", "ConvertTimeToEpochDays", "", "", ""}, {"Time", "datacodec", "ConvertEpochDaysToTime", "", "", ""},
+	{"Time", "datacodec", "ConvertDurationToNanosOfDay", "", "", ""}, {"Time", "datacodec", "ConvertNanosOfDayToDuration", "", "", ""},
+	{"Time", "datacodec", "ConvertTimeToNanosOfDay", "", "", ""},
+	{"Vint", "primitive", "encodeZigZag", "", "", ""}, {"Vint", "primitive", "decodeZigZag", "", "", ""},
+	{"Vint", "primitive", "LengthOfUnsignedVint", "", "", ""}, {"Vint", "primitive", "LengthOfVint", "", "", ""},
+	{"Crc", "crc", "ChecksumKoopman", "", "", ""},
+	{"Crc", "segment", "codec.encodeHeaderUncompressed", "writeHeaderDataAndCrc", "", ""},
+	{"Crc", "segment", "codec.encodeHeaderCompressed", "writeHeaderDataAndCrc", "", ""},
+	{"Crc", "segment", "codec.decodeSegmentHeader", "", "actualHeaderCrc != expectedHeaderCrc", "decodeSegmentHeaderFields"},
 }
 
 type fnGen struct {
@@ -96,6 +101,8 @@ type fnGen struct {
 	extraTy map[string]gty
 	opaque  map[string]string // parameter name → "time" | "struct" | "ignore"
 	utc     map[string]bool   // time.Time parameter has been replaced by its UTC() form (`t = t.UTC()`)
+	structs map[string][]string // local `x := &T{…}`: field names in declaration order (each field is the Lean variable x_Field)
+	recv    string              // receiver name
 	named   []string          // named results
 	namedTy []gty
 	results []gty
@@ -266,7 +273,17 @@ func (g *fnGen) accessor(e ast.Expr) (string, bool) {
 		}
 	case *ast.SelectorExpr:
 		id, ok := x.X.(*ast.Ident)
-		if !ok || g.opaque[id.Name] != "struct" {
+		if !ok {
+			return "", false
+		}
+		if _, isLocal := g.structs[id.Name]; isLocal {
+			n := id.Name + "_" + x.Sel.Name
+			if _, ok := g.scope[n]; !ok {
+				g.fail(e, "unknown field of local struct")
+			}
+			return n, true
+		}
+		if g.opaque[id.Name] != "struct" {
 			return "", false
 		}
 		return g.addExtra(id.Name+"_"+x.Sel.Name, g.exprTy(e)), true
@@ -337,6 +354,20 @@ func (g *fnGen) shiftCount(e ast.Expr) string {
 }
 
 func (g *fnGen) binary(x *ast.BinaryExpr) string {
+	// c.field == nil / != nil on the receiver: a Boolean parameter
+	if x.Op == token.EQL || x.Op == token.NEQ {
+		if nl, ok := x.Y.(*ast.Ident); ok && nl.Name == "nil" {
+			if sel, ok := x.X.(*ast.SelectorExpr); ok {
+				if id, ok := sel.X.(*ast.Ident); ok && g.recv != "" && id.Name == g.recv {
+					n := g.addExtra(id.Name+"_"+sel.Sel.Name+"_isNil", gty{kind: "bool"})
+					if x.Op == token.NEQ {
+						return "(!" + n + ")"
+					}
+					return n
+				}
+			}
+		}
+	}
 	switch x.Op {
 	case token.LAND:
 		return fmt.Sprintf("(%s && %s)", g.expr(x.X), g.expr(x.Y))
@@ -572,6 +603,13 @@ func (g *fnGen) assigned(stmts []ast.Stmt) []string {
 		switch s := n.(type) {
 		case *ast.AssignStmt:
 			for _, l := range s.Lhs {
+				if sel, ok := l.(*ast.SelectorExpr); ok {
+					if id, ok := sel.X.(*ast.Ident); ok {
+						if _, isLocal := g.structs[id.Name]; isLocal {
+							set[id.Name+"_"+sel.Sel.Name] = true
+						}
+					}
+				}
 				if id, ok := l.(*ast.Ident); ok && id.Name != "_" {
 					if s.Tok == token.DEFINE {
 						declared[id.Name] = true
@@ -805,6 +843,57 @@ func (g *fnGen) assign(x *ast.AssignStmt) string {
 			g.fail(id, "assignment to a variable that is not a local of the translated function: "+id.Name)
 		}
 	}
+	// x := &T{F: e, …}: every field becomes a variable x_F
+	if x.Tok == token.DEFINE && len(x.Lhs) == 1 && len(x.Rhs) == 1 {
+		if u, ok := x.Rhs[0].(*ast.UnaryExpr); ok && u.Op == token.AND {
+			if cl, ok := u.X.(*ast.CompositeLit); ok {
+				id := x.Lhs[0].(*ast.Ident)
+				st, ok := info.Types[cl].Type.Underlying().(*types.Struct)
+				if !ok {
+					g.fail(x, "composite literal of a non-struct type")
+				}
+				given := map[string]ast.Expr{}
+				for _, el := range cl.Elts {
+					kv, ok := el.(*ast.KeyValueExpr)
+					if !ok {
+						g.fail(x, "unkeyed struct literal")
+					}
+					given[kv.Key.(*ast.Ident).Name] = kv.Value
+				}
+				var w strings.Builder
+				var fields []string
+				for i := 0; i < st.NumFields(); i++ {
+					f := st.Field(i)
+					ft := g.tyOf(f.Type(), x)
+					n := id.Name + "_" + f.Name()
+					var val string
+					if e, ok := given[f.Name()]; ok {
+						val = g.operand(e, ft)
+					} else if ft.kind == "bv" {
+						val = fmt.Sprintf("0#%d", ft.width)
+					} else {
+						val = "false"
+					}
+					fmt.Fprintf(&w, "let %s : %s := %s\n", n, ft.lean(), val)
+					fields = append(fields, f.Name())
+					g.scope[n] = ft
+				}
+				g.structs[id.Name] = fields
+				return w.String()
+			}
+		}
+	}
+	// x.F = e on a local struct
+	if x.Tok == token.ASSIGN && len(x.Lhs) == 1 && len(x.Rhs) == 1 {
+		if sel, ok := x.Lhs[0].(*ast.SelectorExpr); ok {
+			if id, ok := sel.X.(*ast.Ident); ok {
+				if _, isLocal := g.structs[id.Name]; isLocal {
+					n := id.Name + "_" + sel.Sel.Name
+					return fmt.Sprintf("let %s := %s\n", n, g.operand(x.Rhs[0], g.scope[n]))
+				}
+			}
+		}
+	}
 	switch x.Tok {
 	case token.ASSIGN, token.DEFINE:
 		if len(x.Rhs) == 1 && len(x.Lhs) > 1 {
@@ -890,6 +979,14 @@ func (g *fnGen) ret(x *ast.ReturnStmt) string {
 	}
 	var vals []string
 	for i, r := range x.Results {
+		if id, ok := r.(*ast.Ident); ok {
+			if fields, isLocal := g.structs[id.Name]; isLocal {
+				for _, f := range fields {
+					vals = append(vals, id.Name+"_"+f)
+				}
+				continue
+			}
+		}
 		vals = append(vals, g.operand(r, g.results[i]))
 	}
 	if len(vals) == 1 {
@@ -1019,10 +1116,13 @@ func genGoFn(pkgs map[string]*packages.Package, group string) {
 		if fd == nil {
 			fatalf("gofn: function %s.%s not found", spec.pkg, spec.name)
 		}
-		g := &fnGen{pkg: p, spec: spec, fd: fd, known: known, extraTy: map[string]gty{}, opaque: map[string]string{}, utc: map[string]bool{}, scope: map[string]gty{}}
+		g := &fnGen{pkg: p, spec: spec, fd: fd, known: known, extraTy: map[string]gty{}, opaque: map[string]string{}, utc: map[string]bool{}, structs: map[string][]string{}, scope: map[string]gty{}}
 		lname := spec.name
 		if i := strings.Index(lname, "."); i >= 0 {
 			lname = lname[i+1:]
+		}
+		if spec.leanName != "" {
+			lname = spec.leanName
 		}
 		var params []string
 		sig := p.TypesInfo.Defs[fd.Name].Type().(*types.Signature)
@@ -1030,6 +1130,7 @@ func genGoFn(pkgs map[string]*packages.Package, group string) {
 			for _, f := range fd.Recv.List {
 				for _, n := range f.Names {
 					g.opaque[n.Name] = "ignore"
+					g.recv = n.Name
 				}
 			}
 		}
@@ -1061,6 +1162,17 @@ func genGoFn(pkgs map[string]*packages.Package, group string) {
 		if spec.tailCall == "" {
 			for i := 0; i < sig.Results().Len(); i++ {
 				r := sig.Results().At(i)
+				if pt, ok := r.Type().(*types.Pointer); ok {
+					if st, ok := pt.Elem().Underlying().(*types.Struct); ok {
+						// a returned *struct is the tuple of its fields
+						tup := gty{kind: "tuple"}
+						for j := 0; j < st.NumFields(); j++ {
+							tup.elems = append(tup.elems, g.tyOf(st.Field(j).Type(), fd))
+						}
+						g.results = append(g.results, tup)
+						continue
+					}
+				}
 				rt := g.tyOf(r.Type(), fd)
 				g.results = append(g.results, rt)
 				if r.Name() != "" {
@@ -1069,7 +1181,41 @@ func genGoFn(pkgs map[string]*packages.Package, group string) {
 				}
 			}
 		}
-		body := g.seq(fd.Body.List, func() string {
+		stmts := fd.Body.List
+		if spec.startAfter != "" {
+			at := -1
+			for i, st := range stmts {
+				if is, ok := st.(*ast.IfStmt); ok && types.ExprString(is.Cond) == spec.startAfter {
+					at = i
+				}
+			}
+			if at < 0 {
+				g.fail(fd, "no top-level `if "+spec.startAfter+"` to start after")
+			}
+			// integer variables declared before the starting point and used after it become parameters, in order of first use
+			later := stmts[at+1:]
+			seen := map[string]bool{}
+			for _, st := range later {
+				ast.Inspect(st, func(n ast.Node) bool {
+					id, ok := n.(*ast.Ident)
+					if !ok || seen[id.Name] {
+						return true
+					}
+					v, ok := p.TypesInfo.Uses[id].(*types.Var)
+					if !ok || v.IsField() || v.Pos() >= later[0].Pos() || v.Pos() < fd.Body.Pos() {
+						return true
+					}
+					if bt, ok := basicTy(v.Type()); ok {
+						seen[id.Name] = true
+						g.scope[id.Name] = bt
+						params = append(params, fmt.Sprintf("(%s : %s)", leanName(id.Name), bt.lean()))
+					}
+					return true
+				})
+			}
+			stmts = later
+		}
+		body := g.seq(stmts, func() string {
 			if len(g.named) > 0 {
 				return tupleOf(g.named)
 			}
